@@ -106,6 +106,7 @@ def c14_b(ctx: Ctx):
     lp = loops[0]
     tgt = lp.ast.target
     kname = tgt.elts[0].id if isinstance(tgt, ast.Tuple) and isinstance(tgt.elts[0], ast.Name) else (tgt.id if isinstance(tgt, ast.Name) else None)
+    vname = tgt.elts[1].id if isinstance(tgt, ast.Tuple) and len(tgt.elts) > 1 and isinstance(tgt.elts[1], ast.Name) else "value"
     stores = [n for n in cfg.stmt_nodes() if isinstance(n.ast, ast.Assign) and any(
         isinstance(t, ast.Subscript) and canon(t.value) == "dst" for t in n.ast.targets) and _contains(lp.ast, n.ast)]
     if not stores or not kname:
@@ -120,7 +121,7 @@ def c14_b(ctx: Ctx):
                 continue  # new key
             n_in += 1
             differ = any(t.replace(" ", "").startswith(f"dst[{kname}]==") and not pol for (t, pol) in fs)
-            notmap = any(t.replace(" ", "").startswith("isinstance(value,") and "Mapping" in t and not pol for (t, pol) in fs)
+            notmap = any(t.replace(" ", "").startswith(f"isinstance({vname},") and "Mapping" in t and not pol for (t, pol) in fs)
             has_strat = ("self.key_strategy is None", False) in fs
             selected = any(t.replace(" ", "").startswith("self.key_strategy(") and pol for (t, pol) in fs)
             if not (differ and notmap and has_strat and selected):
@@ -180,7 +181,8 @@ def c14_c(ctx: Ctx):
             out.append(ctx.viol(R, fi, c, "the recursive call does not pass a root: nested conflicts are reported / decided by their last component only"))
             continue
         ns = names_in(common.inline_at(ctx, fi, r, c))
-        if "root" in ns and "key" in ns:
+        knames = {x for n in body_nodes(fi) if isinstance(n, ast.For) and canon(n.iter).startswith("src") for x in common.target_names(n.target)[:1]}
+        if "root" in ns and (ns & knames):
             out.append(ctx.ok(R, fi, c, f"recursion passes root={canon(r)}"))
         else:
             out.append(ctx.viol(R, fi, c, f"recursion passes root={canon(r)}, which drops the accumulated prefix: at depth >= 3 the key strategy is asked about 'b.c' instead of 'a.b.c'"))
@@ -291,7 +293,12 @@ def c14_d(ctx: Ctx):
     else:
         out.append(ctx.info(R, cb, cb.node, "no refusal on an existing backup file", construct=cb.qual + "|stale-backup"))
     fi = ctx.fn("signac.sync:_FileModifyProxy.create_doc_backup")
-    bk = [n for n in body_nodes(fi) if isinstance(n, ast.Assign) and any(isinstance(t, ast.Name) and t.id == "backup" for t in n.targets)]
+    # the in-memory backup: whatever the roll-back handler feeds back into the document (update(X) / reset(X))
+    bnames = {a.id for h in body_nodes(fi) if isinstance(h, ast.ExceptHandler) for st in h.body for c in walk_no_nested(st)
+              if isinstance(c, ast.Call) and isinstance(c.func, ast.Attribute) and c.func.attr in ("update", "reset") for a in c.args if isinstance(a, ast.Name)}
+    bk = [n for n in body_nodes(fi) if isinstance(n, ast.Assign) and any(isinstance(t, ast.Name) and t.id in bnames for t in n.targets)]
+    if not bk:
+        out.append(ctx.inc(R, fi, fi.node, "no in-memory backup (value restored by the roll-back handler) found"))
     for b in bk:
         if isinstance(b.value, ast.Call) and common.ext_name(ctx, fi, b.value) == "copy.deepcopy":
             out.append(ctx.ok(R, fi, b, "the in-memory backup is a deep copy"))
@@ -326,13 +333,18 @@ def c14_e(ctx: Ctx):
             l, r, op = v.left, v.comparators[0], v.ops[0]
             def side(e):
                 t = canon(e)
+                if "lstat" in t:
+                    return "lstat"
                 if "getmtime" not in t and "st_mtime" not in t:
                     return None
                 return "src" if "src" in names_in(e) else ("dst" if "dst" in names_in(e) else None)
             sl, sr = side(l), side(r)
             strict_newer = (not neg and ((isinstance(op, ast.Gt) and (sl, sr) == ("src", "dst")) or (isinstance(op, ast.Lt) and (sl, sr) == ("dst", "src")))) \
                 or (neg and ((isinstance(op, ast.LtE) and (sl, sr) == ("src", "dst")) or (isinstance(op, ast.GtE) and (sl, sr) == ("dst", "src"))))
-            if strict_newer:
+            if "lstat" in (sl, sr):
+                out.append(ctx.viol(R, fi, rets[0], "FileSync.update compares os.lstat() times, i.e. the age of a symbolic link itself, while the copy (follow_symlinks=True) transfers the link target's "
+                                    "content: a fresh link to old data overwrites a newer destination file"))
+            elif strict_newer:
                 out.append(ctx.ok(R, fi, rets[0], "overwrite iff mtime(source) is strictly greater than mtime(destination)"))
             elif sl and sr:
                 out.append(ctx.viol(R, fi, rets[0], f"FileSync.update returns {canon(rets[0].value)}: not 'source strictly newer' (equal or older sources overwrite the destination)"))
@@ -362,8 +374,10 @@ def c14_e(ctx: Ctx):
         out.append(ctx.viol(R, None, None, f"DocSync sentinels changed: NO_SYNC={ns!r} COPY={cp!r}", construct="DocSync|sentinels"))
     ms = ctx.prog.funcs.get("signac.__main__:main_sync")
     if ms is not None:
+        # the strategy variable: the local handed over as doc_sync=<name>
+        dsv = {k.value.id for c in body_nodes(ms) if isinstance(c, ast.Call) for k in c.keywords if k.arg == "doc_sync" and isinstance(k.value, ast.Name)} or {"doc_sync"}
         for n in body_nodes(ms):
-            if isinstance(n, ast.Assign) and any(isinstance(t, ast.Name) and t.id == "doc_sync" for t in n.targets):
+            if isinstance(n, ast.Assign) and any(isinstance(t, ast.Name) and t.id in dsv for t in n.targets):
                 facts = common.facts_at(ctx, ms, n, "n")
                 v = n.value
                 isbykey = isinstance(v, ast.Call) and canon(v.func) in ("DocSync.ByKey", "sync.DocSync.ByKey")
